@@ -8216,6 +8216,10 @@ func (c *BytecodeCompiler) emitFloat(f value.Float, location *position.Location)
 	line := location.StartPos.Line
 	switch f {
 	case 0:
+		// -0.0 == 0, but it is a different value
+		if math.Signbit(float64(f)) {
+			break
+		}
 		c.emit(line, bytecode.FLOAT_0)
 		return
 	case 1:
